@@ -525,7 +525,9 @@ pub fn run_shape(case: &ShapeCase, prop: Prop) -> R<CaseReport> {
                     }
                 }
                 if $show(&now) != exp_now {
-                    return Err(shape_fail(prop, &[Prop::C01], format!("after {what}({:?}) on {:?} the stored value is {:?}, expected {:?}", $show(&vb), $show(&va), $show(&now), exp_now)));
+                    // on a SharedObservable this is also C04's "every read returns the value of the latest preceding write"
+                    let props: &[Prop] = if case.shared { &[Prop::C01, Prop::C04] } else { &[Prop::C01] };
+                    return Err(shape_fail(prop, props, format!("after {what}({:?}) on {:?} the stored value is {:?}, expected {:?}", $show(&vb), $show(&va), $show(&now), exp_now)));
                 }
                 if ready != differs {
                     return Err(shape_fail(prop, &[Prop::C01, Prop::C02], format!("after {what}({:?}) on {:?} the subscriber is {}, expected {}", $show(&vb), $show(&va), if ready { "ready" } else { "Pending" }, if differs { "ready" } else { "Pending" })));
